@@ -178,6 +178,8 @@ def run(ctx, rep):
                 ign = _discr_of(prog_variants_ignore_match(), "Ignore")
                 dep = bool(v) and v[0] == ign
         okg = okg and dep
+        # must-pass: every path to the removal has taken the Ignore edge of the matcher's result
+        okg = okg and only_via(RW, bi, lambda x: x[0] == "discr" and "ignore::Match" in (x[2] if len(x) > 2 and isinstance(x[2], str) else "") and "matched" in repr(x), _discr_of(prog_variants_ignore_match(), "Ignore"))
     rep.check("C12.g", "removed-only-if-ignored", okg, where=RW.loc(), what="a node is dropped from a rewritten tree only if the exclusion matcher returns Match::Ignore")
     memo_rule(prog, rep)
 
